@@ -53,6 +53,7 @@ type BlkSpec struct {
 
 // Uni is the record u of the spec (static scenario, chain contents, keyper schedules).
 type Uni struct {
+	Name  string    `json:"name"`
 	Chain []BlkSpec `json:"chain"`
 	Fork  struct {
 		At int     `json:"at"`
